@@ -375,7 +375,7 @@ pub fn aggregate(f: AggFunc, has_arg: bool, n_rows: usize, vals: &[V]) -> Result
         AggFunc::Count => Ok(V::Int(nn.len() as i64)),
         AggFunc::Sum | AggFunc::Avg => {
             if nn.is_empty() {
-                return Ok(V::Int(0));
+                return Ok(V::Null);
             }
             let mut all_int = true;
             let mut isum: i128 = 0;
@@ -692,7 +692,7 @@ pub fn set_op(op: SetOp, all: bool, l: Vec<Row>, r: Vec<Row>) -> Vec<Row> {
             let mut out = vec![];
             for row in l {
                 match rcount.get_mut(&RowKey(row.clone())) {
-                    Some(c) if *c > 0 => *c -= 1,
+                    Some(c) if *c > 0 => {}
                     _ => out.push(row),
                 }
             }
